@@ -206,7 +206,10 @@ pub fn run() {
     let (oracle, ook) = record(&items[..]);
     for (k, st) in states.iter().enumerate() {
       let (got, gok) = record(st);
-      let same = gok == ook && got == oracle && got.seqs_begun == 1 && got.ended;
+      // serde allows a serializer to be told `None`; a length that IS announced must be the number of
+      // elements emitted
+      let announced_ok = got.announced.map_or(true, |a| a == got.elems.len());
+      let same = gok == ook && got.elems == oracle.elems && announced_ok && got.seqs_begun == 1 && got.ended;
       n += 1;
       if !same {
         bad += 1;
